@@ -28,27 +28,44 @@ Section Bie1.
     let h := sha512 (compressed S) in
     (firstn 16 h, firstn 16 (skipn 16 h), skipn 32 h).
 
+  (* sealing / opening under a given key schedule (iv, kE, kM); [R] = the sender key bytes to embed, or [] *)
+  Definition bie1_seal (keys : bytes * bytes * bytes) (R : bytes) (message : bytes) : bytes :=
+    let '(iv, kE, kM) := keys in
+    let c := cbc_encrypt kE iv message in
+    let payload := bie1_magic ++ R ++ c in
+    payload ++ hmac_sha256 kM payload.
+
+  (* the three fields of a serialised ciphertext: embedded key (when present), AES body, MAC *)
+  Definition bie1_split (with_key : bool) (data : bytes) : option (option bytes * bytes * bytes) :=
+    let hdr := if with_key then 37%nat else 4%nat in
+    if Nat.ltb (length data) (hdr + 32) then None
+    else if negb (bytes_eqb (firstn 4 data) bie1_magic) then None
+    else
+      let body := firstn (length data - 32 - hdr) (skipn hdr data) in
+      let mac := skipn (length data - 32) data in
+      if with_key then
+        let R := firstn 33 (skipn 4 data) in
+        match ec_dec E R with Some _ => Some (Some R, body, mac) | None => None end
+      else Some (None, body, mac).
+
+  Definition bie1_open (keys : bytes * bytes * bytes) (with_key : bool) (data : bytes) : option bytes :=
+    let '(iv, kE, kM) := keys in
+    let hdr := if with_key then 37%nat else 4%nat in
+    if Nat.ltb (length data) (hdr + 32) then None
+    else
+      let payload := firstn (length data - 32) data in
+      let mac := skipn (length data - 32) data in
+      if negb (bytes_eqb (firstn 4 payload) bie1_magic) then None
+      else if with_key && match ec_dec E (firstn 33 (skipn 4 payload)) with Some _ => false | None => true end then None
+      else if negb (bytes_eqb mac (hmac_sha256 kM payload)) then None
+      else cbc_decrypt kE iv (skipn hdr payload).
+
   Definition bie1_encrypt (a : Z) (B : ec_pt E) (with_key : bool) (message : bytes) : option bytes :=
     let S := ec_smul E a B in
     if ec_is_inf E S then None
-    else
-      let '(iv, kE, kM) := key_schedule S in
-      let c := cbc_encrypt kE iv message in
-      let payload := bie1_magic ++ (if with_key then compressed (ec_smul E a (ec_G E)) else []) ++ c in
-      Some (payload ++ hmac_sha256 kM payload).
+    else Some (bie1_seal (key_schedule S) (if with_key then compressed (ec_smul E a (ec_G E)) else []) message).
 
   Definition bie1_decrypt (b : Z) (A : ec_pt E) (with_key : bool) (data : bytes) : option bytes :=
     let S := ec_smul E b A in
-    if ec_is_inf E S then None
-    else
-      let '(iv, kE, kM) := key_schedule S in
-      let hdr := if with_key then 37%nat else 4%nat in
-      if Nat.ltb (length data) (hdr + 32) then None
-      else
-        let payload := firstn (length data - 32) data in
-        let mac := skipn (length data - 32) data in
-        if negb (bytes_eqb (firstn 4 payload) bie1_magic) then None
-        else if with_key && match ec_dec E (firstn 33 (skipn 4 payload)) with Some _ => false | None => true end then None
-        else if negb (bytes_eqb mac (hmac_sha256 kM payload)) then None
-        else cbc_decrypt kE iv (skipn hdr payload).
+    if ec_is_inf E S then None else bie1_open (key_schedule S) with_key data.
 End Bie1.
